@@ -349,3 +349,32 @@ def order_preserving(expr: ast.AST, source_text: str) -> tuple[bool, str]:
         if isinstance(n, ast.Subscript) and isinstance(n.slice, ast.Slice) and n.slice.step is not None:
             return False, 'strided slice'
     return True, 'order preserved'
+
+
+# --------------------------------------------------------------------------------------------------
+# R-PASSTHROUGH
+# --------------------------------------------------------------------------------------------------
+def r_passthrough(ctx, resolver, funcs, names: tuple[str, ...], rule: str = 'R-PASSTHROUGH') -> int:
+    """A function that receives all of ``names`` (as its own or its enclosing function's parameters) and calls a
+    resolved callee that also takes all of them must pass each one on (positionally or by keyword): an omitted argument
+    silently falls back to the callee's default and the value is lost."""
+    n = 0
+    want = set(names)
+    for fn in funcs:
+        scope = set(fn.param_names)
+        outer_ref = fn.ref.rsplit('.', 1)[0]
+        if ctx.prog.has_func(outer_ref):
+            scope |= set(ctx.prog.func(outer_ref).param_names)
+        if not want <= scope:
+            continue
+        for call in core.calls_in(fn.node, deep=False):
+            callee = resolver.resolve(fn, call)
+            if callee is None or not want <= set(callee.params):
+                continue
+            if any(isinstance(a, ast.Starred) for a in call.args) or any(k.arg is None for k in call.keywords):
+                continue
+            bound = resolver.bind(callee, call)
+            n += 1
+            missing = sorted(want - set(bound))
+            ctx.check(not missing, rule, fn, f'call of {callee.ref} passes {sorted(want)} on' + (f' (omitted: {missing} - the callee default replaces the value)' if missing else ''), call, callee=callee.ref)
+    return n
